@@ -252,6 +252,9 @@ def consumes_on_ok(prog, body, progress_ids, allow_end=True):
             continue
         seen.add((b, facts))
         t = body.term(b)
+        if any(isinstance(k_, tuple) and k_[0] == "sw" and any(d_[0] == b for d_ in body.defs_of(k_[1])) for k_, _v in facts):
+            # the tested value is assigned again here (a loop): what an earlier test said is about the old value
+            facts = frozenset((k_, v_) for k_, v_ in facts if not (isinstance(k_, tuple) and k_[0] == "sw" and any(d_[0] == b for d_ in body.defs_of(k_[1]))))
         if _is_err_block(body, b):
             continue
         if t["k"] in ("call", "tailcall") and "fn" in t:
@@ -279,8 +282,57 @@ def consumes_on_ok(prog, body, progress_ids, allow_end=True):
                 nf[name] = val
                 work.append((tgt, frozenset(nf.items()), path + (tgt,)))
             continue
+        iv = _immutable_switch_subject(body, b)
+        if iv is not None:
+            # two matches on the same never-reassigned value (`match command {..}` twice) take corresponding arms
+            f = dict(facts)
+            known = f.get(("sw", iv))
+            listed = frozenset(v for v, _ in t["vals"])
+            for v, tgt in list(t["vals"]) + [(None, t["otherwise"])]:
+                if v is not None:
+                    if known is not None and ((known[0] == "in" and v not in known[1]) or (known[0] == "notin" and v in known[1])):
+                        continue
+                    nk = ("in", frozenset([v]))
+                else:
+                    if known is not None and known[0] == "in":
+                        rest = known[1] - listed
+                        if not rest:
+                            continue
+                        nk = ("in", rest)
+                    else:
+                        nk = ("notin", (known[1] if known is not None else frozenset()) | listed)
+                nf = dict(f)
+                nf[("sw", iv)] = nk
+                work.append((tgt, frozenset(nf.items()), path + (tgt,)))
+            continue
         for s in body.succ[b]:
             work.append((s, facts, path + (s,)))
+    return None
+
+
+def _immutable_switch_subject(body, b):
+    """the local a switchInt tests, when it is a plain integer / char value that is assigned exactly once (followed
+    back through copies): its value is the same at every test"""
+    t = body.term(b)
+    if t["k"] != "switch" or R.switch_discr_place(body, b) is not None:
+        return None
+    pl = op_place(t["op"])
+    for _ in range(8):
+        if pl is None or pl[1]:
+            return None
+        ds = body.defs_of(pl[0])
+        if pl[0] <= body.argc and not ds:
+            return pl[0]
+        if len(ds) != 1:
+            return None
+        d = ds[0]
+        if d[1] == R.TERM:
+            return pl[0]
+        rv = d[2]
+        if rv["k"] == "use" and op_place(rv["op"]) is not None and body.local_ty(pl[0]) in ("char", "u8", "u16", "u32", "u64", "usize", "i8", "i16", "i32", "i64", "isize"):
+            pl = op_place(rv["op"])
+            continue
+        return pl[0] if body.local_ty(pl[0]) in ("char", "u8", "u16", "u32", "u64", "usize", "i8", "i16", "i32", "i64", "isize") else None
     return None
 
 
